@@ -208,10 +208,11 @@ def confirm_replay(res, v):
         return False, "recorded crash path did not crash again on replay"
     if not (outs[0][0] and outs[1][0]):
         return False, "recorded path did not fail again on replay (%s / %s)" % (outs[0], outs[1])
-    if outs[0][1] != outs[1][1]:
-        return False, "two replays of the same path disagree (%s / %s)" % (outs[0][1], outs[1][1])
-    if not outs[0][2] and v["key"] not in outs[0][1]:
-        return False, "replay fails with other keys %s, not %s" % (outs[0][1], v["key"])
+    # both replays fail.  If they fail with different key sets, or without the recorded key, the failing values themselves are
+    # not reproducible (e.g. they come from memory the code should not have read); the path still fails every time, so it is
+    # reported, with that remark -- only a replay that PASSES makes the record untrustworthy (harness error above).
+    if outs[0][1] != outs[1][1] or (not outs[0][2] and v["key"] not in outs[0][1]):
+        v["msg"] = (v.get("msg", "") + " [note: the path fails on every replay, but not with identical oracle keys (%s / %s): the observed values are not reproducible]" % (outs[0][1][:3], outs[1][1][:3]))
     return True, ""
 
 
